@@ -594,7 +594,7 @@ func init() {
 
 func checkC15(c *hx.Checker) {
 	c.Rule = "names from opset13.GetOpNames() (must be exactly the registered set); per operator: every input count 0..max+2 (Concat 0..5) x dtype placement (the 14 ONNX element types plus Go-native int / uint tensors, which no gate may accept): full product of the dtypes over all positions when max<=2, else every homogeneous row and every single- and two-position deviation from every homogeneous allowed row x nil at every position; " +
-		"every homogeneous list additionally with one and the same tensor object at every position, as a sub-slice of a longer array (spare capacity holding other tensors) and as the second request gated by one operator object after a longer / shorter / over-long / wrongly typed / empty first request; unknown names: 120 non-registered ONNX operator names, case/space variants, empty string; lookup independence: for 22 (operator, attribute set A, attribute set B) specs ALL interleavings of 2 lookups (20) and of 3 lookups (1680) of <Get, Init, Apply>, each Apply compared with its isolated result. " +
+		"every homogeneous list additionally with one and the same tensor object at every position, as a sub-slice of a longer array (spare capacity holding other tensors) and as the second request gated by one operator object after a longer / shorter / over-long / wrongly typed / empty first request; unknown names: 192 non-registered operator names (ONNX operators outside the set, case/space variants, empty string, names of 15..65537 characters, format verbs, NUL, look-alike characters); lookup independence: for 22 (operator, attribute set A, attribute set B) specs ALL interleavings of 2 lookups (20) and of 3 lookups (1680) of <Get, Init, Apply>, each Apply compared with its isolated result. " +
 		"states = distinct (operator, attribute-thread progress) configurations visited; transitions = Get/Init/Apply steps executed. non-trivial = every gate case with >= 1 input and every interleaving"
 	c.Assumptions = []string{"the allowed dtypes per position are the operator's own GetInputTypeConstraints (the property is about the gate enforcing its declaration before computing)",
 		"a nil at a *required* position is not an ONNX-expressible request: only 'no panic' is asserted there"}
